@@ -678,6 +678,19 @@ def gc_order_programs(seed):
                     progs.append({"id": "gcorder-%d" % k, "cfg": cfg, "contents": ["m1", "m2"], "algs": ["sha256"], "ntags": 3, "repos": ["proj/app"], "seed": k,
                                   "tagstyle": 0, "pre": "", "sentinel": False, "ops": ops, "stores": ["mem", "dir"]})
                     k += 1
+    # images hidden behind a tagged index whose tag is deleted or moved: the collection takes the index and its children; a
+    # delete of a collected child by digest finds nothing (no entry without content is left behind, not even a hidden one)
+    def putx(c, ref, ct):
+        return {"op": "ManPut", "repo": "r1", "ref": ref, "ctype": ct, "ctvar": "", "body": c, "lenKnown": True, "dparam": ""}
+    for grace in (True, False):
+        for untag in ("del", "move"):
+            ops = [blob("b1"), blob("b2"), blob("b3"), putx("m1", dig("m1"), "oci.image"), putx("m2", dig("m2"), "oci.image"), putx("x1", tag("t1"), "oci.index")]
+            ops += [dele(tag("t1"))] if untag == "del" else [putx("m1", tag("t1"), "oci.image")]
+            ops += [{"op": "Age", "repo": "r1"}, {"op": "GC", "repo": "r1"}, dele(dig("m2")), dele(dig("x1")), {"op": "GC", "repo": "r1"}, {"op": "Restart"}]
+            cfg = dict(DEFAULT_CFG, untagged=True, grace=grace, emptyRepo=False)
+            progs.append({"id": "gcorder-%d" % k, "cfg": cfg, "contents": ["m1", "m2", "x1"], "algs": ["sha256"], "ntags": 3, "repos": ["proj/app"], "seed": k,
+                          "tagstyle": 0, "pre": "", "sentinel": False, "ops": ops, "stores": ["mem", "dir"]})
+            k += 1
     return progs
 
 
